@@ -85,10 +85,11 @@ fn run(tier: Tier) -> i32 {
     ctx.run_enum_brief(StreamCfg::new("all_n", CLASSES, nmax), nmax, true, |i| (i + 1) as u32, |n: &u32| structural(*n), |n| json!(n));
     let cfgs = sweep_configs();
     for (k, name) in [(0usize, "end_to_end_cfg0"), (1usize, "end_to_end_cfg1")] {
-        let full = match FullRun::new(&cfgs[k]) {
-            Ok(f) => Arc::new(f),
-            Err(f) => {
-                ctx.report_violation(name, &json!(null), &f);
+        let full = match catch(|| FullRun::new(&cfgs[k])) {
+            Ok(Ok(f)) => Arc::new(f),
+            _ => {
+                // the unscoped run itself is broken: C02/C04's subject; C16 cannot be decided
+                ctx.unhealthy.push(format!("unscoped reference run of configuration {} failed", k));
                 continue;
             }
         };
@@ -96,9 +97,11 @@ fn run(tier: Tier) -> i32 {
         let f2 = full.clone();
         ctx.run_enum_brief(StreamCfg::new(name, CLASSES, m), m, true, |i| (i + 1) as u32, move |n: &u32| end_to_end(&f2, *n), |n| json!(n));
     }
-    let full = Arc::new(FullRun::new(&cfgs[0]).unwrap());
-    let cases = tier.pick(400, 4_000);
-    ctx.run_random_brief(StreamCfg::new("end_to_end_sampled", CLASSES, cases), || 1u32..20_000, move |n: &u32| end_to_end(&full, *n), |n| json!(n));
+    if let Ok(Ok(full)) = catch(|| FullRun::new(&cfgs[0])) {
+        let full = Arc::new(full);
+        let cases = tier.pick(400, 4_000);
+        ctx.run_random_brief(StreamCfg::new("end_to_end_sampled", CLASSES, cases), || 1u32..20_000, move |n: &u32| end_to_end(&full, *n), |n| json!(n));
+    }
     let cases = tier.pick(200, 2_000);
     ctx.run_random_brief(StreamCfg::new("large_n", CLASSES, cases), || prop_oneof![1u32..(1 << 22), 1u32..100_000], |n: &u32| structural(*n), |n| json!(n));
     ctx.extra.insert("exhaustive_over".into(), json!(format!("every worker count n in 1..={}", nmax)));
